@@ -132,6 +132,14 @@ def _composite_leaf_trees(n):
     return {s: [t for t in v if any(l in json.dumps(t) for l in X4.XLEAF_NAMES)] for s, v in by.items()}
 
 
+def _einsum3_trees(n):
+    """MultiLinearEinsum with three operands: every permutation of key_order, all-variable and with a static
+    operand, on vectors (a,b,c) and on square matrices (keys P,Q,R on (S,S)); plus a unary context"""
+    from vf.ref import c03_expr as X
+    from vf.ref import c04_expr as X4
+    return X.enumerate_trees(X4.ME3_VEC + X4.ME3_MAT, U_XL, [], n)
+
+
 def _energy_sums():
     """eadd(e1(l1), e2(l2)) for all likelihood pairs and leaf pairs, bare / scaled / inside a StandardHamiltonian"""
     out = {3: [], 4: []}
@@ -170,6 +178,8 @@ def space(tier):
         blocks.append(("likelihood sums", "ab", _energy_sums(), {3: (0, 1), 4: (0,)}))
         blocks.append(("operators on two keys (composite leaves), <=2 nodes", "ab", _composite_leaf_trees(2),
                        {0: (0, 1), 1: (0, 1), 2: (0,)}))
+        blocks.append(("MultiLinearEinsum, 3 operands, all key orders, <=1 node", "abc", _einsum3_trees(1),
+                       {0: (0, 1), 1: (0, 1)}))
     else:
         add("full alphabet, <=2 nodes", "ab", ["a", "b", "La"], full, BINARY, 2, WRAPPERS)
         add("full alphabet, <=2 nodes", "x", ["x", "Lx"], full, BINARY, 2, WRAPPERS)
@@ -178,6 +188,8 @@ def space(tier):
         blocks.append(("likelihood sums", "ab", _energy_sums(), {3: (0, 1), 4: (0, 1)}))
         blocks.append(("operators on two keys (composite leaves), <=3 nodes", "ab", _composite_leaf_trees(3),
                        {0: (0, 1), 1: (0, 1), 2: (0, 1), 3: (0,)}))
+        blocks.append(("MultiLinearEinsum, 3 operands, all key orders, <=2 nodes", "abc", _einsum3_trees(2),
+                       {0: (0, 1), 1: (0, 1), 2: (0, 1)}))
     _space_cache[tier] = blocks
     return blocks
 
@@ -224,7 +236,7 @@ def _field(E, inp, keys):
     ift = E.ift
     if keys == ["x"]:
         return ift.makeField(E.S, inp["x"])
-    return ift.MultiField.from_dict({k: ift.makeField(E.S, inp[k]) for k in keys})
+    return ift.MultiField.from_dict({k: ift.makeField(E.dom_of(k), inp[k]) for k in keys})
 
 
 def _flatval(v):
@@ -380,7 +392,7 @@ def culprit(case):
     while not X.is_leaf(t):
         nxt = None
         for c in t[1:]:
-            if X.is_leaf(c):
+            if X.is_leaf(c) and c not in X.XLEAVES:
                 continue
             cfg = "x" if X.tree_keys(c) == {"x"} else case["cfg"]
             r = evaluate(dict(case, tree=c, cfg=cfg), localise=False)
@@ -422,6 +434,8 @@ def run(case):
         f = fails[0]
         c = culprit(case)
         cop = c if X.is_leaf(c) else c[0]
+        if cop in X.XLEAVES:
+            cop = cop.split(":")[0]      # family of the composite leaf (e.g. all key orders of one einsum form)
         # key = every failing check x every failing API x dtype x smallest failing subtree's root operator, so
         # that an additional failure of the same operator is still reported as new
         checks = "+".join(sorted({x.check for x in fails}))
@@ -434,7 +448,7 @@ def run(case):
     for o in set(ops):
         stats["n|%s|%s" % (dts, o)] = 1
     root = ops[0] if ops else "leaf"
-    return ok(nontrivial=len(ops) > 0,
+    return ok(nontrivial=len(ops) > 0 or t in X.XLEAVES,
               outcome="%s|%s->%s|size%d|%s" % (dts, _category(root) if ops else "leaf", info["type"], info["size"],
                                                "metric" if info["metric"] else "-"),
               stats=stats, detail=dict(tree=X.tree_str(t)))
